@@ -567,6 +567,7 @@ class StageNeed:
     self.nacon = 0
     self.ncollision = 0
     self.calls = 0
+    self.collision_calls = 0
 
   def __enter__(self):
     from mujoco_warp._src import forward as F
@@ -585,7 +586,23 @@ class StageNeed:
       return out
 
     F.forward = tapped
+    # with sleeping enabled fwd_position runs two collision passes and the second one restarts the broadphase pair counter: the need of
+    # the contact buffer is the maximum over every pass, so the pass itself is tapped as well
+    from mujoco_warp._src import collision_driver as CD
+
+    self._CD = CD
+    self._orig_col = CD.collision
+
+    def tapped_col(m, d, *a, **k):
+      out = rec._orig_col(m, d, *a, **k)
+      rec.ncollision = max(rec.ncollision, int(d.ncollision.numpy()[0]))
+      rec.nacon = max(rec.nacon, int(d.nacon.numpy()[0]))
+      rec.collision_calls += 1
+      return out
+
+    CD.collision = tapped_col
     return self
 
   def __exit__(self, *a):
     self._F.forward = self._orig
+    self._CD.collision = self._orig_col
